@@ -169,6 +169,13 @@ func (eapAkaPrime *EapAkaPrime) Marshal() ([]byte, error) {
 		if err != nil {
 			return nil, errors.Wrapf(err, "EAP-AKA' Marshal(): write attribute/value failed")
 		}
+		if attr.attrType == AT_RES || attr.attrType == AT_KDF_INPUT {
+			// the value is kept without padding; pad to the attribute length (a multiple of 4 octets)
+			paddingLen := int(attr.length)*4 - EapAkaAttrTypeLen - EapAkaAttrLengthLen - EapAkaAttrReservedLen - len(attr.value)
+			if paddingLen > 0 {
+				buffer.Write(make([]byte, paddingLen))
+			}
+		}
 	}
 
 	return buffer.Bytes(), nil
@@ -491,8 +498,7 @@ func (attr *EapAkaPrimeAttr) setAttr(attrType EapAkaPrimeAttrType, value []byte)
 		attr.length = uint8((totalLen + paddingBytes) / 4)
 
 		// Create value slice with padding
-		paddedLen := valBytesLen + paddingBytes
-		attr.value = make([]byte, paddedLen)
+		attr.value = make([]byte, valBytesLen)
 		copy(attr.value, value)
 	case AT_KDF:
 		// RFC 5448:
